@@ -73,6 +73,14 @@ def ref(self, target):
 ''', "fires every n-th distinct date, first after `offset` dates; a repeated call on the same date does not step"),
 }
 
+INIT_ALT_REFS = {
+    # the configured dates are only ever tested for membership (RunOnDate.__call__ is checked against `now in self.dates`): a set of the same timestamps decides the same
+    "RunOnDate": ('''
+def ref(self, *dates):
+    self.dates = {pd.to_datetime(d) for d in dates}
+''',),
+}
+
 INIT_REFS = {
     "RunEveryNPeriods": '''
 def ref(self, n, offset=0):
@@ -224,7 +232,8 @@ def run(chk):
     for cls, (m, src, what) in REFS.items():
         check_equiv(chk, "C12.R3", ALGOS, cls, m, src, "state-machine", "%s: %s" % (cls, what))
     for cls, src in INIT_REFS.items():
-        check_equiv(chk, "C12.R3", ALGOS, cls, "__init__", src, "initial-state", "%s starts from the documented initial state" % cls, ignore_fields=("_name",))
+        check_equiv(chk, "C12.R3", ALGOS, cls, "__init__", src, "initial-state", "%s starts from the documented initial state" % cls, ignore_fields=("_name",),
+                    alt_refs=INIT_ALT_REFS.get(cls, ()))
     # premises of the schedulers that live elsewhere: combined with Or every scheduler is consulted on every date (stateful
     # counters step), and the synthetic pre-start row that index 0 stands for is always there
     check_equiv(chk, "C12.R3", ALGOS, "Or", "__call__", OR_REF, "or-consults-every-scheduler", "schedulers combined with Or are each consulted on every date (no short-circuit), so counting schedulers keep counting")
